@@ -98,7 +98,7 @@ func (e *Envelope) VerifySignature(sig *dsig.Signature, keys ...*dsig.PublicKey)
 }
 
 func (e *Envelope) verifySignature(sig *dsig.Signature, keys ...*dsig.PublicKey) error {
-	if e.Head == nil {
+	if e.Head == nil || schema.CheckNullElements(e.Head) != nil {
 		return errors.New("header mismatch") // nothing the signed header could be contained in
 	}
 	if len(keys) == 0 {
